@@ -30,7 +30,12 @@ open Parsley Parsley.Obj Parsley.Spelling Parsley.DocSpec Driver Driver.C03
            well-chained history (family variant%8 in 0-3, or 7 = one /Prev skipping revisions): filler of kind lk / gk / tk
            and length ll / gl / tl before the header, in the gap before the LAST `startxref`, after the LAST %%EOF
            (format, kinds and expansion: Driver/C03.lean `garbFile`; the lengths: `sweepSizes`).  Every /Prev and every
-           offset is relative to the header, so nothing changes: oracle `resolve` of the chain + reported header offset. -/
+           offset is relative to the header, so nothing changes: oracle `resolve` of the chain + reported header offset.
+      redef <hex> <seed> <variant>   family 5 made systematic: a compressed object is REDEFINED INSIDE A NEW OBJECT STREAM by a
+           later revision (see `genRedef`: new container numbered above / below the old one, old container still live /
+           fully superseded, position of the redefined member in both streams, a second redefinition, updates in between)
+      reth <hex> <seed> <revisions> <index>   identity mismatch by RETARGETING one cross-reference entry across revisions
+           (see `genReth` and Driver/C03.lean `RetCase`): must be rejected; shadowed entries are controls -/
 
 /-- the revisions of a history, all /Prev automatic -/
 def genRevs (seed variant maxRevs : Nat) : List Rev × Bytes × Bool × Rng :=
@@ -313,24 +318,241 @@ def garhBase (seed variant : Nat) : Scene :=
 /-- families of well-chained histories for the sweep -/
 def garhVariants : List Nat := [0, 1, 2, 3, 7]
 
+
+/-! ### what the code AS BUILT makes of object-stream members that are mentioned again (known finding #30)
+
+    The known class `objstm-member-touched-later` is reported only when the case has that shape (`memberTouchedLater`,
+    decided on the case) AND the implementation's output is exactly what the following rule says - any other outcome of
+    such a case is `wrong-merge`.  The rule is the abstract content of get_xref_info / parse_objects, stated over what the
+    encoder wrote (no bytes, no parser, not the loader model): entries are kept newest first, one per (number,
+    generation), within a hybrid section the table's before the stream's; every kept in-use entry defines its file-level
+    object; every object stream named by a kept type-2 entry and defined as a stream is REPLAYED WHOLE, in ascending
+    object-number order: its members are registered one after the other in the stream's order, and a member that is
+    already defined OVERWRITES the definition and ends the replay of that stream. -/
+
+inductive EntK where
+  | free
+  | file (v : Obj)
+  | member (container : Nat)
+
+structure AEnt where
+  num : Nat
+  gen : Nat
+  k : EntK
+  rev : Nat
+
+/-- the entries of one revision in the order the loader sees them -/
+def revEnts (i : Nat) (r : Rev) (s : Said) : List AEnt :=
+  let fileVal (id : DocSpec.ObjId) : Obj := ((s.written.find? fun w => w.1 == id).map (·.2)).getD .null
+  let uses : List AEnt := r.objs.map fun o => ⟨o.num, o.gen, .file (fileVal (o.num, o.gen)), i⟩
+  let frees : List AEnt := (if r.zero then [⟨0, 65535, .free, i⟩] else []) ++ r.frees.map fun f => ⟨f.1, f.2, .free, i⟩
+  let self : List AEnt := [⟨r.lay.xnum, 0, .file (fileVal (r.lay.xnum, 0)), i⟩]
+  let mems : List AEnt := r.members.map fun m => ⟨m.1, 0, .member m.2.1, i⟩
+  match r.lay.kind with
+  | 0 => uses ++ frees
+  | 1 => uses ++ mems ++ frees ++ self
+  | _ => uses ++ frees ++ (r.members.map fun m => (⟨m.1, r.lay.hiddenGen, .free, i⟩ : AEnt)) ++ self ++ mems
+
+def dedupEnts (l : List AEnt) : List AEnt :=
+  l.foldl (fun acc e => if acc.any (fun x => x.num == e.num && x.gen == e.gen) then acc else acc ++ [e]) []
+
+def insertNat (n : Nat) : List Nat → List Nat
+  | [] => [n]
+  | x :: t => if n < x then n :: x :: t else if n == x then x :: t else x :: insertNat n t
+
+/-- replay of one object stream: `(number, value)` in the stream's order -/
+def replayStream : List (Nat × Obj) → List (DocSpec.ObjId × Obj) → List (DocSpec.ObjId × Obj)
+  | [], defs => defs
+  | (n, v) :: t, defs =>
+    if defs.any (·.1 == (n, 0)) then defs.map fun d => if d.1 == (n, 0) then ((n, 0), v) else d
+    else replayStream t (defs ++ [((n, 0), v)])
+
+def isStreamObj : Obj → Bool
+  | .stream _ _ => true
+  | _ => false
+
+/-- what the code as built defines for the revisions on the chain (oldest first) -/
+def replayDefs (revs : List (Rev × Said)) : List (DocSpec.ObjId × Obj) :=
+  let live := dedupEnts (revs.zipIdx.reverse.flatMap fun ((r, s), i) => revEnts i r s)
+  let defs0 : List (DocSpec.ObjId × Obj) := live.filterMap fun e => match e.k with | .file v => some ((e.num, e.gen), v) | _ => none
+  let conts := live.foldl (fun acc e => match e.k with | .member c => insertNat c acc | _ => acc) []
+  conts.foldl (fun defs c =>
+    -- (the stream objects are looked up before any object stream is opened)
+    match defs0.find? (·.1 == (c, 0)), live.find? (fun e => e.num == c && e.gen == 0) with
+    | some (_, v), some e =>
+      if isStreamObj v then
+        let ms := ((revs[e.rev]?.map (·.1.members)).getD []).filter fun m => m.2.1 == c
+        replayStream (ms.map fun m => (m.1, m.2.2.2)) defs
+      else defs
+    | _, _ => defs) defs0
+
+/-- the output the rule predicts for a scene -/
+def replayExpected (sc : Scene) : String :=
+  match sc.chain with
+  | none => "rejected"
+  | some idx =>
+    let (_, _, _, saids) := render sc
+    let on : List (Rev × Said) := idx.filterMap fun i =>
+      match sc.revs[i]?, saids[i]? with
+      | some (r, _), some s => some (r, s)
+      | _, _ => none
+    match on.getLast? with
+    | some (_, s) => s!"ok {s.root.1} {s.root.2}" ++ showDefs (sortDefs (replayDefs on))
+    | none => "rejected"
+
+/-- the judge of `hist` / `redef`: `resolve`; a failing case is classified on the revisions that count, and the class
+    `objstm-member-touched-later` is kept only for exactly the outcome `replayExpected` predicts -/
+def judgeMerge (sc : Scene) (hex impl : String) : String :=
+  -- a skipped revision is invisible to the classifiers too
+  let onChain : Scene := match sc.chain with
+    | some idx => { sc with revs := idx.filterMap fun i => sc.revs[i]? }
+    | none => sc
+  let v := judgeScene sc hex impl
+  if v.startsWith "bad " && !(v.startsWith "bad generator" || v.startsWith "bad panic" || v.startsWith "bad accepted") then
+    let cls := classOf onChain
+    let cls := if cls == "wrong-load" then "wrong-merge" else cls
+    let cls := if cls == "objstm-member-touched-later" && impl.trimAscii.toString != replayExpected sc then "wrong-merge" else cls
+    s!"bad {cls} " ++ " ".intercalate ((v.splitOn " ").drop 2)
+  else v
+
+/-! ### a compressed object REDEFINED INSIDE A NEW OBJECT STREAM (`redef`)
+
+    Base revision (cross-reference stream or hybrid): plain objects 1 (root), 2 and object stream 20 holding 11, 12, 13
+    in a random order.  A later revision writes a NEW object stream with new values for some of them:
+      variant % 2          the new container is numbered ABOVE (30) / BELOW (10) the old one
+      (variant / 2) % 5    redefined: the first / the last / the middle member of the old stream, ALL of them (the old
+                           stream is fully superseded: no current entry points into it), the first two
+      (variant / 10) % 3   the new stream holds: only the redefined members / a brand-new member 14 BEFORE them / AFTER them
+      (variant / 30) % 4   history: base + update / base + update + plain update (redefines 2, adds 50) / base + plain
+                           update + update / base + update + a SECOND redefinition of the same members in a third
+                           container numbered on the other side (5 / 35)
+    120 combinations.  Oracle `resolve`: every member resolves to the value of the newest revision that mentions it.  The
+    code replays every live object stream whole, in object-number order, so which definition survives depends on the
+    ORDER of that pass: the known class is reported only for the outcome `replayExpected` predicts. -/
+
+def genRedef (seed variant : Nat) : Scene :=
+  let r := Rng.mk' (seed * 6151 + variant * 43 + 13)
+  let lower := variant % 2 == 1
+  let which := (variant / 2) % 5
+  let comp := (variant / 10) % 3
+  let shape := (variant / 30) % 4
+  let (garbage, r) := rndGarbage r
+  let (bin, r) := r.nat 2
+  let (p1, r) := rndValObj r 1 0
+  let (p2, r) := rndValObj r 2 0
+  let (m11, r) := memberOf r 11
+  let (m12, r) := memberOf r 12
+  let (m13, r) := memberOf r 13
+  let (ord, r) := shuffleL [m11, m12, m13] r
+  let (c1, cm1, r) := lenContainer r 20 0 ord
+  let nums := ord.map (·.1)
+  let redefNums := match which with
+    | 0 => nums.take 1
+    | 1 => nums.drop 2
+    | 2 => (nums.drop 1).take 1
+    | 3 => nums
+    | _ => nums.take 2
+  let again (r : Rng) (ns : List Nat) : List (Nat × Obj × Obj × Ch × Bytes) × Rng :=
+    ns.foldl (fun (acc : List (Nat × Obj × Obj × Ch × Bytes) × Rng) n => let (m, r) := memberOf acc.2 n; (acc.1 ++ [m], r)) ([], r)
+  let (new2, r) := again r redefNums
+  let (m14, r) := memberOf r 14
+  let mems2 := match comp with
+    | 0 => new2
+    | 1 => [m14] ++ new2
+    | _ => new2 ++ [m14]
+  let (c2, cm2, r) := lenContainer r (if lower then 10 else 30) 0 mems2
+  let (new3, r) := again r redefNums
+  let (c3, cm3, r) := lenContainer r (if lower then 35 else 5) 0 new3
+  let (p2', r) := rndValObj r 2 0
+  let (p50, r) := rndValObj r 50 0
+  let (k0, r) := r.nat 2
+  let (k1, r) := r.nat 2
+  let (k2, r) := r.nat 2
+  let (kp, r) := r.nat 3
+  let (objs0, r) := shuffleL [p1, p2, c1] r
+  let (l0, r) := rndLay r (k0 + 1) 40 65535
+  let (l1, r) := rndLay r (k1 + 1) 41 65535
+  let (l2, r) := rndLay r (k2 + 1) 42 65535
+  let (lp, _) := rndLay r kp 43 65535
+  let lp := if kp == 2 then { lp with up := false } else lp
+  let base : Rev := { objs := objs0, members := cm1, frees := [], zero := true, root := (1, 0), lay := l0 }
+  let upd : Rev := { objs := [c2], members := cm2, frees := [], zero := false, root := (1, 0), lay := l1 }
+  let upd2 : Rev := { objs := [c3], members := cm3, frees := [], zero := false, root := (1, 0), lay := l2 }
+  let plain : Rev := { objs := [p2', p50], members := [], frees := [], zero := false, root := (1, 0), lay := lp }
+  let revs := match shape with
+    | 0 => [base, upd]
+    | 1 => [base, upd, plain]
+    | 2 => [base, plain, upd]
+    | _ => [base, upd, upd2]
+  ⟨garbage, bin == 1, revs.map fun x => (x, .auto), some (List.range revs.length)⟩
+
+/-! ### identity mismatch by retargeting ACROSS REVISIONS (`reth`)
+
+    A history of `n` revisions (layouts at random): revision 0 writes 1 (root), 2, stream 3, stream 7 with its /Length
+    in 8 (forward reference); revision i >= 1 redefines 2 and adds 10i+1, stream 10i+3, stream 10i+7 with holder 10i+8.
+    ONE entry - of object B in the section of revision `bRev` - is aimed at an object A of revision `aRev` (or into it,
+    at its `endobj`, at a section, at the header; see Driver/C03.lean `Target`); B is an object of that revision or the
+    number 10 bRev + 6 that no object carries.  The loader walks the NEWEST section first, so with aRev > bRev object A
+    is loaded before B's entry is looked at, with aRev < bRev after it, with aRev = bRev the numbers decide.  An entry of
+    object 2 in a revision below the newest is SHADOWED (never looked at): those cases are controls that must load
+    exactly; every other case must be REJECTED (decided on the bytes: `retIsMismatch`). -/
+
+def rethNums (i : Nat) : List Nat := if i == 0 then [1, 2, 3, 7, 8] else [2, 10 * i + 1, 10 * i + 3, 10 * i + 7, 10 * i + 8]
+
+def rethRevs (seed n : Nat) : List Rev × Bytes × Bool × Rng :=
+  let r := Rng.mk' (seed * 4801 + n * 5 + 2)
+  let (garbage, r) := rndGarbage r
+  let (bin, r) := r.nat 2
+  let (revs, r) := (List.range n).foldl (fun (acc : List Rev × Rng) i =>
+    let (revs, r) := acc
+    let b := 10 * i
+    let (pa, r) := rndValObj r (if i == 0 then 1 else b + 1) 0
+    let (p2, r) := rndValObj r 2 0
+    let (d, r) := rndStmObj r (b + 3) 0 none
+    let (f, r) := rndStmObj r (b + 7) 0 (some (b + 8))
+    let (h, r) := holderObj r (b + 8) (dataLen f)
+    let (objs, r) := shuffleL [pa, p2, d, f, h] r
+    let (k, r) := r.nat 3
+    let (lay, r) := rndLay r k (100 + i) 65535
+    let lay := if k == 2 then { lay with up := false } else lay
+    (revs ++ [{ objs, members := [], frees := [], zero := i == 0, root := (1, 0), lay }], r)) ([], r)
+  (revs, garbage, bin == 1, r)
+
+/-- (bRev, B, aRev, target) of every case of an `n`-revision history -/
+def rethCombos (n : Nat) : List (Nat × Nat × Nat × Target) :=
+  let bEnts : List (Nat × Nat) := (List.range n).flatMap fun i => (rethNums i ++ [10 * i + 6]).map fun b => (i, b)
+  let aObjs : List (Nat × Nat) := (List.range n).flatMap fun j => (rethNums j).map fun a => (j, a)
+  (bEnts.flatMap fun (i, b) => (aObjs.filter fun (j, a) => !(i == j && a == b)).map fun (j, a) => (i, b, j, Target.own a)) ++
+  (bEnts.flatMap fun (i, b) =>
+    ([1, 2, 3].map fun t =>
+      let j := (i + t) % n
+      let a := (rethNums j)[(b + t) % 5]?.getD 2
+      (i, b, j, if t == 1 then Target.alt a else if t == 2 then Target.inside a else Target.endobj a)) ++
+    ((List.range n).map fun j => (i, b, j, Target.sect)) ++
+    [(i, b, (i + 1) % n, Target.stm), (i, b, 0, Target.header)])
+
+def genReth (seed n idx : Nat) : RetCase :=
+  let (revs, garbage, bin, r) := rethRevs seed n
+  match (rethCombos n)[idx]? with
+  | none => default
+  | some (i, b, j, target) =>
+    let bits := (r.nat 4).1 + idx
+    let a := match target with | .own a | .alt a | .inside a | .endobj a => a | _ => 0
+    let toStream := revs.zipIdx.map fun (rv, k) =>
+      if rv.lay.kind != 2 then [] else
+      (if k == i && bits % 2 == 1 then [b] else []) ++ (if k == j && bits / 2 % 2 == 1 && a != 0 then [a] else [])
+    ⟨garbage, bin, revs, i, (b, 0), j, target, toStream, b == 2 && i + 1 < n⟩
+
 def judge (case impl : String) : String :=
   match judgeCommon case impl with
   | some v => v
   | none =>
     match words case with
-    | ["hist", hex, seed, variant] =>
-      let sc := genHist seed.toNat! variant.toNat! (maxRevsOf variant.toNat!)
-      -- a skipped revision is invisible to the classifiers too
-      let onChain : Scene := match sc.chain with
-        | some idx => { sc with revs := idx.filterMap fun i => sc.revs[i]? }
-        | none => sc
-      let v := judgeScene sc hex impl
-      -- classify on the revisions that count
-      if v.startsWith "bad " && !(v.startsWith "bad generator" || v.startsWith "bad panic" || v.startsWith "bad accepted") then
-        let cls := classOf onChain
-        let cls := if cls == "wrong-load" then "wrong-merge" else cls
-        s!"bad {cls} " ++ " ".intercalate ((v.splitOn " ").drop 2)
-      else v
+    | ["hist", hex, seed, variant] => judgeMerge (genHist seed.toNat! variant.toNat! (maxRevsOf variant.toNat!)) hex impl
+    | ["redef", hex, seed, variant] => judgeMerge (genRedef seed.toNat! variant.toNat!) hex impl
+    | ["reth", hex, seed, n, idx] => judgeRet (genReth seed.toNat! n.toNat! idx.toNat!) hex impl "wrong-merge"
+    | ["ret", hex, seed, kind, a, b, tsel, place] =>      -- one-revision histories, see Driver/C03.lean
+      judgeRet (genRet seed.toNat! ⟨kind.toNat!, a.toNat!, b.toNat!, tsel.toNat!, place.toNat!⟩) hex impl "wrong-merge"
     | ["w0", hex, seed, variant] => Driver.C03.judgeW0 seed.toNat! variant.toNat! hex impl   -- one-revision histories, see Driver/C03.lean
     | ["ench", hex, seed, variant] => judgeEnc (genEncHist seed.toNat! variant.toNat! (encMaxRevs variant.toNat!)) hex impl
     | ["enc", hex, seed, variant] => judgeEnc (genEncDoc seed.toNat! variant.toNat!) hex impl
@@ -367,6 +589,20 @@ def gen (seed n : Nat) (tier : String) (emit : String → IO Unit) : IO Unit := 
       let c := { c with variant := v }
       let (doc, _, _, _) := render (garhBase c.seed c.variant)
       emit (garbLine "garh" doc c)
+  -- a compressed object redefined inside a NEW object stream: all 120 combinations (the seed picks values and layouts)
+  for rep in List.range (if tier == "thorough" then 5 else 1) do
+    for v in List.range 120 do
+      let s := (seed + 13 * rep) * 1019 + v
+      let (bytes, _, _, _) := render (genRedef s v)
+      emit s!"redef {hexOfBytes bytes} {s} {v}"
+  -- identity mismatch by retargeting one entry across revisions: every (entry, object) pair of 2- and 3-revision histories
+  for rep in List.range (if tier == "thorough" then 3 else 1) do
+    for nr in [2, 3] do
+      for idx in List.range (rethCombos nr).length do
+        let s := (seed + 17 * rep) * 1021 + idx
+        match retUsable (genReth s nr idx) with
+        | some bytes => emit s!"reth {hexOfBytes bytes} {s} {nr} {idx}"
+        | none => pure ()
   for k in List.range n do
     let s := seed * 100003 + k
     let v := k % 8 + (if tier == "thorough" && k % 3 == 0 then 1000 else 0)
@@ -398,6 +634,9 @@ def nontrivial (line : String) : Bool :=
   match words line with
   | "hist" :: hex :: _ => hex.length ≥ 1000
   | "big" :: _ => true
+  | "redef" :: _ => true
+  | "reth" :: _ => true
+  | "ret" :: _ => true
   | "lenc" :: _ => true
   | "lenh" :: _ => true
   | "long" :: _ => true
